@@ -197,12 +197,13 @@ Section Search.
   Qed.
 
   (* the IDs of the LID stream are the specification's sorted list *)
-  Lemma stream_exact rev :
-    exists lids, tree_lids (prepare c) q from to rev = Ok lids /\
-      map (lid_id tab) lids =
-        (if rev then List.rev (IdSort.sort (map did (filter mt c))) else IdSort.sort (map did (filter mt c))).
+  Lemma stream_ids (rev : bool) (lids : list N) :
+    ssorted rev lids ->
+    (forall x, In x lids <-> 1 <= x /\ exists d, dl tab x = Some d /\ mt d = true) ->
+    map (lid_id tab) lids =
+      (if rev then List.rev (IdSort.sort (map did (filter mt c))) else IdSort.sort (map did (filter mt c))).
   Proof.
-    destruct (tree_lids_spec rev) as [lids [El [Ss Si]]]. exists lids. split; [exact El|].
+    intros Ss Si.
     set (sorted := IdSort.sort (map did (filter mt c))).
     set (target := if rev then List.rev sorted else sorted).
     (* the specification's list is strictly sorted in the requested direction *)
@@ -244,27 +245,59 @@ Section Search.
     exact Eq.
   Qed.
 
+  Lemma stream_exact rev :
+    exists lids, tree_lids (prepare c) q from to rev = Ok lids /\
+      map (lid_id tab) lids =
+        (if rev then List.rev (IdSort.sort (map did (filter mt c))) else IdSort.sort (map did (filter mt c))).
+  Proof.
+    destruct (tree_lids_spec rev) as [lids [El [Ss Si]]]. exists lids. split; [exact El|].
+    apply stream_ids; auto.
+  Qed.
+
   Lemma sorted_nodup : NoDup (IdSort.sort (map did (filter mt c))).
   Proof.
     eapply Permutation_NoDup; [apply IdSort.Permuted_sort|]. apply nodup_map_filter. exact Hnd.
+  Qed.
+
+  (* from the stream's IDs to the answer: any IDs table that shows the stream as the specification's list *)
+  Lemma search_finish (rev : bool) (limit : N) (wt : bool) (hist : N) (tabx : list doc) (lids : list N) :
+    map (lid_id tabx) lids =
+      (if rev then List.rev (IdSort.sort (map did (filter mt c))) else IdSort.sort (map did (filter mt c))) ->
+    (let '(total, ids) := iterate tabx limit (wt || (0 <? hist)) lids 0 0 (0, 0) in
+     Ok (ids, if wt then total else 0)) = Ok (search_spec c q from to rev limit wt).
+  Proof.
+    intros Eq.
+    set (sorted := IdSort.sort (map did (filter mt c))) in *.
+    set (target := if rev then List.rev sorted else sorted) in *.
+    assert (ND : NoDup (map (lid_id tabx) lids)).
+    { rewrite Eq. unfold target. destruct rev; [apply NoDup_rev|]; apply sorted_nodup. }
+    rewrite (iterate_exact tabx limit (wt || (0 <? hist)) lids ND).
+    unfold search_spec, matching. fold mt. fold sorted. fold target. rewrite Eq. f_equal. f_equal.
+    destruct wt; cbn [orb]; auto. f_equal.
+    rewrite <- (map_length (lid_id tabx) lids), Eq. unfold target.
+    assert (length sorted = length (filter mt c)).
+    { unfold sorted. rewrite <- (Permutation_length (IdSort.Permuted_sort _)). apply map_length. }
+    destruct rev; [rewrite rev_length|]; auto.
+  Qed.
+
+  Lemma hist_finish (rev : bool) (hist : N) (tabx : list doc) (lids : list N) :
+    map (lid_id tabx) lids =
+      (if rev then List.rev (IdSort.sort (map did (filter mt c))) else IdSort.sort (map did (filter mt c))) ->
+    hist_of hist (map (fun l => fst (lid_id tabx l)) lids) = hist_of hist (map dmid (matching c q from to)).
+  Proof.
+    intros Eq. unfold matching. fold mt. apply hist_of_perm.
+    rewrite <- (map_map (lid_id tabx) fst lids), Eq.
+    replace (map dmid (filter mt c)) with (map fst (map did (filter mt c))) by (rewrite map_map; reflexivity).
+    apply Permutation_map. apply Permutation_sym.
+    destruct rev; [eapply Permutation_trans; [|apply Permutation_rev]|]; apply IdSort.Permuted_sort.
   Qed.
 
   Theorem search_exact rev limit wt hist :
     search_model c q from to rev limit wt hist = Ok (search_spec c q from to rev limit wt).
   Proof.
     destruct (stream_exact rev) as [lids [El Eq]].
-    set (sorted := IdSort.sort (map did (filter mt c))) in *.
-    set (target := if rev then List.rev sorted else sorted) in *.
-    assert (ND : NoDup (map (lid_id tab) lids)).
-    { rewrite Eq. unfold target. destruct rev; [apply NoDup_rev|]; apply sorted_nodup. }
     unfold search_model, search_prepared. rewrite El. cbn [bind]. unfold prepare. cbn [p_tab]. fold tab.
-    rewrite (iterate_exact tab limit (wt || (0 <? hist)) lids ND).
-    unfold search_spec, matching. fold mt. fold sorted. fold target. rewrite Eq. f_equal. f_equal.
-    destruct wt; cbn [orb]; auto. f_equal.
-    rewrite <- (map_length (lid_id tab) lids), Eq. unfold target.
-    assert (length sorted = length (filter mt c)).
-    { unfold sorted. rewrite <- (Permutation_length (IdSort.Permuted_sort _)). apply map_length. }
-    destruct rev; [rewrite rev_length|]; auto.
+    apply search_finish. exact Eq.
   Qed.
 
   (* histogram = buckets of the matching documents *)
